@@ -33,7 +33,7 @@ extern "C" void __wrap_free(void *p) {
 
 enum QOp { Q_PUSH, Q_PUSHTEXT, Q_PUSHTEXTLEN, Q_POP, Q_CLEAR, Q_ERRQ, Q_COUNTQ, Q_CLS, Q_COUNT };
 struct Step { int op; int code; std::string text; size_t len; };
-struct QCase { int cap = 2; int failAt = 0; std::vector<Step> steps; int backlog = 0; /* errors the application re-queues from its error callback when the queue runs empty */ };
+struct QCase { int cap = 2; int failAt = 0; std::vector<Step> steps; bool writePush = false; /* the write callback queues -365 while a response is written */ int backlog = 0; /* errors the application re-queues from its error callback when the queue runs empty */ };
 
 static std::string stepText(const Step &s) {
     switch (s.op) {
@@ -48,14 +48,14 @@ static std::string stepText(const Step &s) {
         default: return "count";
     }
 }
-static std::string caseText(const QCase &c) { std::string s = fmt("capacity=%d failDup=%d%s: ", c.cap, c.failAt, c.backlog ? fmt(" backlog=%d (re-queued from the error callback when the queue runs empty)", c.backlog).c_str() : ""); size_t n = 0; for (auto &st : c.steps) { if (++n > 60) { s += fmt("... (%zu steps)", c.steps.size()); break; } s += stepText(st) + " "; } return s; }
+static std::string caseText(const QCase &c) { std::string s = fmt("capacity=%d failDup=%d%s: ", c.cap, c.failAt, (std::string(c.backlog ? fmt(" backlog=%d (re-queued from the error callback when the queue runs empty)", c.backlog) : "") + (c.writePush ? " write callback queues -365" : "")).c_str()); size_t n = 0; for (auto &st : c.steps) { if (++n > 60) { s += fmt("... (%zu steps)", c.steps.size()); break; } s += stepText(st) + " "; } return s; }
 static std::string replayOf(const QCase &c) {
-    std::string s = fmt("cap=%d\nfailat=%d\nbacklog=%d\nsteps=", c.cap, c.failAt, c.backlog);
+    std::string s = fmt("cap=%d\nfailat=%d\nbacklog=%d\nwritepush=%d\nsteps=", c.cap, c.failAt, c.backlog, (int) c.writePush);
     for (auto &st : c.steps) s += fmt("%d:%d:%zu:%s;", st.op, st.code, st.len, hexEnc(st.text).c_str());
     return s + "\n";
 }
 static QCase fromReplay(const Replay &r) {
-    QCase c; c.cap = (int) r.num("cap", 2); c.failAt = (int) r.num("failat"); c.backlog = (int) r.num("backlog", 0);
+    QCase c; c.cap = (int) r.num("cap", 2); c.failAt = (int) r.num("failat"); c.backlog = (int) r.num("backlog", 0); c.writePush = r.num("writepush", 0) != 0;
     std::string s = r.get("steps"); size_t i = 0;
     while (i < s.size()) {
         size_t e = s.find(';', i); if (e == std::string::npos) break;
@@ -89,6 +89,7 @@ static std::string runCase(const QCase &c, Hist10 *h = nullptr) {
     g_failAt = c.failAt; g_dupCount = 0; g_nlive = 0; g_dupFailed = 0;
     std::string fail;
     {
+        if (c.writePush) k.writePushesError = -365;
         Inst I(k);
         I.repush = c.backlog;
         g_track = true;
@@ -163,6 +164,12 @@ static std::string runCase(const QCase &c, Hist10 *h = nullptr) {
 #endif
                     model.push_back(e); announced = true;
                 }
+            }
+            // the error the transport queued while the response of this query was being written arrives after everything above
+            if (c.writePush && (st.op == Q_ERRQ || st.op == Q_COUNTQ)) {
+                if ((int) model.size() == c.cap) { model.back() = MEntry{-350, false, "", false}; overflowed = true; }
+                else model.push_back(MEntry{-365, false, "", false});
+                announced = true;
             }
             (void) dupFailedBeforeOp; (void) wasNonEmpty;
             if (fail.empty() && SCPI_ErrorCount(&I.ctx) != (int) model.size()) fail = fmt("SCPI_ErrorCount is %d, model has %zu", (int) SCPI_ErrorCount(&I.ctx), model.size()) + where();
@@ -275,6 +282,7 @@ static QCase decode(Src &s, int maxOps) {
     }
     c.failAt = s.prob(1, 2) && texts ? (int) s.range(1, (uint64_t) texts) : 0;
     c.backlog = s.prob(1, 4) ? (int) s.range(1, 3) : 0;
+    c.writePush = s.prob(1, 5);
     return c;
 }
 static int g_maxOps = 300;
